@@ -53,7 +53,10 @@ var treeApis = []string{"BooleanOpPolyTree64", "Engine64Tree", "BooleanOpPolyTre
 func execTree(r *rand.Rand, e *TreeEv) {
 	s0, c0 := clonePaths(e.Subj), clonePaths(e.Clip)
 	ct, fr := clipper.ClipType(e.Ct), clipper.FillRule(e.Fr)
-	e.Ok, e.K = true, 1
+	e.Ok = true
+	if e.Api != "BooleanOpPolyTreeD" {
+		e.K = 1
+	}
 	e.Out = safeCall(func() {
 		switch e.Api {
 		case "BooleanOpPolyTree64":
@@ -75,10 +78,14 @@ func execTree(r *rand.Rand, e *TreeEv) {
 			f.Execute(ct, fr, &s)
 			e.Flat = fromPaths64(s)
 		case "BooleanOpPolyTreeD":
-			e.K = 100
-			t := clipper.BooleanOpPolyTreeD(ct, toPathsD(e.Subj), toPathsD(e.Clip), fr, 2)
+			// precision 0, 1 or 2 (recorded as the result unit K = 10^precision; replay re-uses it)
+			if e.K != 1 && e.K != 10 && e.K != 100 {
+				e.K = []int64{1, 10, 100}[r.Intn(3)]
+			}
+			prec := map[int64]int{1: 0, 10: 1, 100: 2}[e.K]
+			t := clipper.BooleanOpPolyTreeD(ct, toPathsD(e.Subj), toPathsD(e.Clip), fr, prec)
 			e.Tree = flattenT(t.PolyPathBase)
-			e.Flat = fromPathsDScaled(clipper.BooleanOpPathsD(ct, toPathsD(e.Subj), toPathsD(e.Clip), fr, 2), 100)
+			e.Flat = fromPathsDScaled(clipper.BooleanOpPathsD(ct, toPathsD(e.Subj), toPathsD(e.Clip), fr, prec), float64(e.K))
 		default:
 			e.K = 100
 			c := clipper.NewClipperD(2)
